@@ -556,3 +556,144 @@ theorem circleQuadrants_scoped (n : Nat) : ∀ (q next : Nat), 4 ≤ next →
     exact ⟨⟨x1, by rw [← x2]; exact y1⟩, by rw [y2, x2]; omega⟩
 
 end Lyon.C04
+
+namespace Lyon.C04
+open Lyon Lyon.Tess
+
+/-! ### the repaired stroke and basic-shape skeletons are instances of the fill skeleton -/
+
+theorem shapeRun_eq {σ : Type} (S : Sink σ) (script : List CReq) (s : σ) :
+    shapeRun S script s = tessellateImpl S true script none s := by
+  unfold shapeRun tessellateImpl
+  dsimp only
+  cases (runQ S script (S.begin s) []).err <;> simp
+
+theorem strokeRun_eq {σ : Type} (S : Sink σ) (events : List (List CReq)) (s : σ) :
+    (strokeRun S events s).trace = (tessellateImpl S true events.flatten none s).trace ∧
+    (strokeRun S events s).result = (tessellateImpl S true events.flatten none s).result ∧
+    (strokeRun S events s).st = (tessellateImpl S true events.flatten none s).st := by
+  obtain ⟨h1, h2, h3⟩ := strokeEvents_eq S events (S.begin s) []
+  unfold strokeRun tessellateImpl
+  dsimp only
+  rw [h1, h2, h3]
+  cases (runQ S events.flatten (S.begin s) []).err <;> simp
+
+end Lyon.C04
+
+namespace Lyon.C04
+open Lyon Lyon.Tess
+
+/-! ### the skeleton's requests as direct builder calls; decidable protocol checker -/
+
+/-- The builder calls (`Op`s, raw ids) that `runQ` makes for a request sequence. -/
+def lower {σ : Type} (S : Sink σ) : List CReq → σ → List Nat → List Op
+  | [], _, _ => []
+  | .v p :: r, s, ids =>
+      match S.vertex s p with
+      | (s', .ok i) => .vertex p :: lower S r s' (ids ++ [i])
+      | (_, .error _) => [.vertex p]
+  | .t a b c :: r, s, ids =>
+      .tri (resolve ids a) (resolve ids b) (resolve ids c) ::
+        lower S r (S.tri s (resolve ids a) (resolve ids b) (resolve ids c)) ids
+
+theorem lower_body {σ : Type} (S : Sink σ) : ∀ (core : List CReq) (s : σ) (ids : List Nat),
+    ∀ o ∈ lower S core s ids, Op.isBody o = true := by
+  intro core
+  induction core with
+  | nil => intro s ids o ho; simp [lower] at ho
+  | cons r rest ih =>
+    intro s ids o ho
+    cases r with
+    | v p =>
+      rcases hv : S.vertex s p with ⟨s', (i | e)⟩
+      · simp only [lower, hv, List.mem_cons] at ho
+        rcases ho with rfl | ho
+        · rfl
+        · exact ih _ _ o ho
+      · simp only [lower, hv, List.mem_cons, List.not_mem_nil, or_false] at ho
+        subst ho; rfl
+    | t a b c =>
+      simp only [lower, List.mem_cons] at ho
+      rcases ho with rfl | ho
+      · rfl
+      · exact ih _ _ o ho
+
+/-- `Sink.exec` on the lowered calls is `runQ`: same final builder state, same recorded calls. -/
+theorem exec_lower {σ : Type} (S : Sink σ) : ∀ (core : List CReq) (s : σ) (ids : List Nat),
+    S.exec (lower S core s ids) s = ((runQ S core s ids).st, (runQ S core s ids).calls) := by
+  intro core
+  induction core with
+  | nil => intro s ids; simp [lower, Sink.exec, runQ]
+  | cons r rest ih =>
+    intro s ids
+    cases r with
+    | v p =>
+      rcases hv : S.vertex s p with ⟨s', (i | e)⟩
+      · simp only [lower, hv, Sink.exec, runQ, ih s' (ids ++ [i])]
+      · simp [lower, hv, Sink.exec, runQ]
+    | t a b c =>
+      simp only [lower, Sink.exec, runQ, ih]
+
+/-- Body calls up to one terminator, which must match the result. -/
+def bodyThenTerm : List Call → Option TErr → Bool
+  | [], _ => false
+  | [t], res => (decide (t = .endG) && res.isNone) || (decide (t = .abort) && res.isSome)
+  | c :: r, res => c.isBody && bodyThenTerm r res
+
+/-- Decidable form of `Protocol`. -/
+def protocolB (tr : List Call) (res : Option TErr) : Bool :=
+  (match tr with
+   | .begin :: rest => bodyThenTerm rest res
+   | _ => false) &&
+  (match firstRefusal tr with
+   | none => true
+   | some e => decide (res = some (.geometryBuilder e)))
+
+theorem bodyThenTerm_iff (res : Option TErr) : ∀ l : List Call,
+    bodyThenTerm l res = true ↔
+      ∃ body term, l = body ++ [term] ∧ (∀ c ∈ body, c.isBody = true) ∧
+        ((res = none ∧ term = .endG) ∨ (res ≠ none ∧ term = .abort)) := by
+  intro l
+  induction l with
+  | nil => simp [bodyThenTerm]
+  | cons c r ih =>
+    cases r with
+    | nil =>
+      simp only [bodyThenTerm, Bool.or_eq_true, Bool.and_eq_true, decide_eq_true_eq]
+      constructor
+      · rintro (⟨rfl, h⟩ | ⟨rfl, h⟩)
+        · exact ⟨[], .endG, rfl, by simp, Or.inl ⟨by simpa [Option.isNone_iff_eq_none] using h, rfl⟩⟩
+        · exact ⟨[], .abort, rfl, by simp,
+            Or.inr ⟨by intro hn; rw [hn] at h; simp at h, rfl⟩⟩
+      · rintro ⟨body, term, h, hb, hc⟩
+        cases body with
+        | nil =>
+          simp only [List.nil_append, List.cons.injEq, and_true] at h
+          subst h
+          rcases hc with ⟨hr, rfl⟩ | ⟨hr, rfl⟩
+          · exact Or.inl ⟨rfl, by simp [hr]⟩
+          · exact Or.inr ⟨rfl, by cases res <;> simp_all⟩
+        | cons x xs =>
+          have := congrArg List.length h
+          simp at this
+    | cons d r' =>
+      have hstep : bodyThenTerm (c :: d :: r') res = (c.isBody && bodyThenTerm (d :: r') res) := by
+        simp [bodyThenTerm]
+      rw [hstep, Bool.and_eq_true, ih]
+      constructor
+      · rintro ⟨hc, body, term, h, hb, hcond⟩
+        refine ⟨c :: body, term, by simp [h], ?_, hcond⟩
+        intro x hx
+        simp only [List.mem_cons] at hx
+        rcases hx with rfl | hx
+        · exact hc
+        · exact hb x hx
+      · rintro ⟨body, term, h, hb, hcond⟩
+        cases body with
+        | nil => simp at h
+        | cons x xs =>
+          simp only [List.cons_append, List.cons.injEq] at h
+          obtain ⟨rfl, h⟩ := h
+          exact ⟨hb _ (by simp), xs, term, h, fun y hy => hb y (by simp [hy]), hcond⟩
+
+end Lyon.C04
